@@ -149,6 +149,19 @@ def extremum_candidates(ip, cn, term, fn, _depth=0):
                     out |= extremum_candidates(ip, cn, a, fn, _depth + 1)
             out.discard(ident)
             return out
+        def carried_in(t):
+            if isinstance(t, tuple):
+                if len(t) == 3 and t[0] == "loopcarried" and t[2] == lid:
+                    return [t]
+                return [x for y in t for x in carried_in(y)]
+            return []
+        others = [c for c in carried_in(final) if c != carried]
+        if final[0] == "call" and final[1] == full and carried not in carried_in(final) and others:
+            # `m = min(OTHER_ACCUMULATOR, x)`: each iteration discards the previous value of m - after
+            # the loop m is min(that accumulator, last x), not an extremum over the sequence
+            oth = others[0]
+            return {f"the {fn} of the last element and the loop's other accumulator `{oth[1]}` "
+                    f"(the running value of `{name}` is not carried from one iteration to the next)"}
         other = "builtins." + ("max" if fn == "min" else "min")
         if final[0] == "call" and final[1] == other and carried in final[2]:
             # a running maximum inside a minimum (or the reverse): understood, and not a candidate
@@ -326,3 +339,42 @@ def exhausted_iterators(fn):
         if hit is not None:
             out.append((name, bind, hit))
     return out
+
+
+# ------------------------------------------------------------------ arguments the reference has not
+def new_args(repo, fq, args, kwargs, bound_receiver=True):
+    """split the arguments of a call of `fq` into those of the reference signature and those for
+    parameters the reference tree's function does not have (sa.interp.REF_SIGNATURES):
+    (reference args, reference kwargs, status) with status
+      "exact"    - no additional argument,
+      "default"  - every additional argument is the parameter's own constant default (the call is
+                   the reference call),
+      "extended" - an additional argument carries something else: the callee runs a path the
+                   properties do not speak about"""
+    import ast
+    from sa import interp as _ip
+    ref = (_ip.REF_SIGNATURES or {}).get(fq)
+    args, kwargs = list(args), dict(kwargs)
+    if ref is None:
+        return args, kwargs, "exact"
+    try:
+        mod, qual = fq.split(":")
+        fi = repo.func(mod, qual)
+    except Exception:
+        return args, kwargs, "exact"
+    a = fi.node.args
+    pos = [x.arg for x in a.posonlyargs + a.args]
+    dflt = dict(zip(pos[len(pos) - len(a.defaults):], a.defaults))
+    dflt.update({k.arg: d for k, d in zip(a.kwonlyargs, a.kw_defaults) if d is not None})
+    extra = [(pos[i], v) for i, v in enumerate(args) if i < len(pos) and pos[i] not in ref]
+    extra += [(k, v) for k, v in kwargs.items() if k not in ref]
+    if not extra:
+        return args, kwargs, "exact"
+    keep_a = [v for i, v in enumerate(args) if i >= len(pos) or pos[i] in ref]
+    keep_k = {k: v for k, v in kwargs.items() if k in ref}
+    status = "default"
+    for name, v in extra:
+        d = dflt.get(name)
+        if not (isinstance(d, ast.Constant) and v == _ip.C(d.value)):
+            status = "extended"
+    return keep_a, keep_k, status
